@@ -21,6 +21,7 @@ import (
 	"fmt"
 	"strconv"
 	"strings"
+	"time"
 
 	"github.com/openGemini/openGemini/engine/hybridqp"
 	"github.com/openGemini/openGemini/lib/util/lifted/influx/influxql"
@@ -584,4 +585,57 @@ func stmtHasBigSet(st *influxql.SelectStatement) bool {
 		}
 	})
 	return big
+}
+
+// ---------------------------------------------------------------------------------------------
+// ParseExpr on a shipped text that was cut short (a corrupted message): it must come back, and the model
+// predicts what it returns
+
+func runCut(c *hx.Ctx, g *gen) {
+	_, text := g.cleanCondition()
+	e, err := yaccParse(text)
+	if err != nil {
+		return
+	}
+	printed := e.String()
+	rs := []rune(printed)
+	if len(rs) < 2 {
+		return
+	}
+	cut := string(rs[:1+g.r.Intn(len(rs)-1)])
+	if hasBigSet(e) {
+		// (Go map order: the printed text of a key set is not canonical; cut in front of the first list)
+		if i := strings.Index(cut, " IN ("); i >= 0 {
+			cut = cut[:i+5]
+		}
+	}
+	var e2 influxql.Expr
+	var perr error
+	done := make(chan struct{})
+	var pmsg string
+	go func() {
+		defer close(done)
+		pmsg = hx.Safe(func() { e2, perr = influxql.ParseExpr(cut) })
+	}()
+	ans := ""
+	select {
+	case <-done:
+		switch {
+		case pmsg != "":
+			ans = "err " + pmsg
+		case perr != nil:
+			ans = "err"
+		default:
+			ans = "t " + dump(e2)
+		}
+	case <-time.After(3 * time.Second):
+		hangs++
+		ans = "hang"
+	}
+	line := c.Emit("pe "+hx16(cut), ans)
+	c.Case("pe "+cut, true)
+	c.Count("stmt:cut-text")
+	if ans == "hang" || pmsg != "" {
+		c.Violation(line, "panic", "ParseExpr on a text cut short does not come back (or panics): "+strconv.Quote(cut)+" "+pmsg)
+	}
 }
